@@ -222,7 +222,16 @@ def install_common(ex: Executor):
     orig_cvm = ex.call_value_method
 
     def cvm(recv, o, name, args, kwargs, st, node):
-        args = [a.id if isinstance(a, Tok) else a for a in args]
+        conv = []
+        for a in args:
+            if isinstance(a, Tok):
+                a = a.id
+            elif isinstance(a, Ref) and isinstance(st.deref(a), Obj) and st.deref(a).cls == "Element":
+                nid = z3.IntVal(1000000 + a.addr)            # an element instance as a stack item
+                st.pc.append(kind(nid) == K["Element"])
+                a = nid
+            conv.append(a)
+        args = conv
         if isinstance(o, ListV) and name == "extend":
             other = st.deref(args[0])
             if isinstance(other, ListV):
